@@ -5,6 +5,7 @@
      op   : add sub mul fdiv cat app lt
      stmt : skip | expr e | asg x <k> e1..ek e | op x <k> e1..ek <op> e | seq s s | if e s s | while e s
             | try s c s | throw e | break n | cont n | ret e
+   line:  alloc <sz> <avail> <n>    -> ok <count> | err | capov | abort     (Lang/HugeCount.v)
    answer: <status> | <v0> <v1> ...   status = done | throw <val> | break n | cont n | ret <val> | panic | fuel
            values in the harness' canonical form (N, I5, L[..]); an error message is E; undeclared is U *)
 open Model
@@ -72,6 +73,16 @@ let rec parse_stmt toks = match toks with
 
 let () = serve (fun line ->
   match split_ws line with
+  | ["alloc"; sz; avail; n] ->
+    (* Lang/HugeCount.v: the allocation of `x .* n` *)
+    (match clamp_count (coqz_of_string n) with
+     | Ok c ->
+       (match vec_alloc (coqz_of_string sz) (coqz_of_string avail) c with
+        | AllocOk -> "ok " ^ string_of_coqz c
+        | CapacityOverflow -> "capov"
+        | AllocAbort -> "abort")
+     | Err _ -> "err"
+     | _ -> "badmodel")
   | fuel :: nvars :: rest ->
     let n = int_of_string nvars in
     let rec init k toks st =
